@@ -19,6 +19,7 @@ use crate::fri::proof::{
 use crate::fri::structure::{
     FriOpeningBatch, FriOpeningBatchTarget, FriOpenings, FriOpeningsTarget,
 };
+use crate::fri::validate_shape::validate_fri_proof_shape;
 use crate::fri::FriParams;
 use crate::hash::hash_types::{MerkleCapTarget, RichField};
 use crate::hash::merkle_tree::MerkleCap;
@@ -26,6 +27,7 @@ use crate::iop::ext_target::ExtensionTarget;
 use crate::iop::target::Target;
 use crate::plonk::circuit_data::{CommonCircuitData, VerifierOnlyCircuitData};
 use crate::plonk::config::{GenericConfig, Hasher};
+use crate::plonk::validate_shape::validate_proof_with_pis_shape;
 use crate::plonk::verifier::verify_with_challenges;
 use crate::util::serialization::{Buffer, Read, Write};
 
@@ -93,7 +95,22 @@ impl<F: RichField + Extendable<D>, C: GenericConfig<D, F = F>, const D: usize>
         circuit_digest: &<<C as GenericConfig<D>>::Hasher as Hasher<C::F>>::Hash,
         common_data: &CommonCircuitData<F, D>,
     ) -> anyhow::Result<CompressedProofWithPublicInputs<F, C, D>> {
-        let indices = self.fri_query_indices(circuit_digest, common_data)?;
+        // `FriProof::compress` indexes the query rounds, their steps and their evaluations
+        // according to the circuit's FRI parameters, so the proof must have the expected shape.
+        validate_proof_with_pis_shape(&self, common_data)?;
+        let challenges =
+            self.get_challenges(self.get_public_inputs_hash(), circuit_digest, common_data)?;
+        validate_fri_proof_shape::<F, C, D>(
+            &self.proof.opening_proof,
+            &common_data.get_fri_instance(challenges.plonk_zeta),
+            &common_data.fri_params,
+        )?;
+        ensure!(
+            self.proof.opening_proof.query_round_proofs.len()
+                == common_data.fri_params.config.num_query_rounds,
+            "Number of query rounds does not match config."
+        );
+        let indices = challenges.fri_challenges.fri_query_indices;
         let compressed_proof = self.proof.compress(&indices, &common_data.fri_params);
         Ok(CompressedProofWithPublicInputs {
             public_inputs: self.public_inputs,
